@@ -16,7 +16,7 @@ RULE = (
     "storage mode x chunk size; for each, EVERY window 0<=i0<=i1<=n, 0<=j0<=j1<=n is queried (n<=7 quick/<=10 "
     "thorough through the query engines on a dict-backed CSRReader; n<=5/<=7 through cooler.api.matrix on a real "
     "file, dense+sparse+pixel forms); a sampled part drives Cooler.matrix(...)[key] with n<=40, all slice "
-    "spellings (negative, open, scalar), store forms (path, URI, open File, open Group) and output forms. Oracle: "
+    "spellings (negative, open, scalar), store forms (path, URI, open File, open Group), output forms, and - for path/URI stores - a history in which the same Cooler object is queried, the collection is re-created over the same bins with other pixels, and the object is queried again. Oracle: "
     "numpy slice of the dense completion of the model; pixel form: stored records inside the window in storage "
     "order. Each window is one evaluation. Non-trivial = non-empty window containing >=1 stored value whose row "
     "and column ranges overlap (touches/straddles the diagonal) or that is read with chunksize smaller than the "
@@ -280,7 +280,10 @@ def sampled_cases(draw, max_chroms, max_bins):
             "out": draw(st.sampled_from(["dense", "sparse", "pixels", "pixels-join", "pixels-index"])),
             "store": draw(st.sampled_from(["path", "uri", "file", "group"])),
             "field": draw(st.sampled_from([None, "count", "x"])),
-            "oob": draw(st.sampled_from([None] * 9 + ["scalar-high", "scalar-low"]))}
+            "oob": draw(st.sampled_from([None] * 9 + ["scalar-high", "scalar-low"])),
+            # history: the same Cooler object is queried, the matrix at that URI is re-created over the same bins
+            # with other pixels, and the object is queried again (a path-based Cooler re-opens the file on every call)
+            "recreate_rows": draw(st.one_of(st.none(), st.none(), gen.pixels(n, symmetric, count=st.integers(1, 999), extra_cols=[gen.DYADIC])))}
 
 
 def _mk_key(k):
@@ -319,6 +322,16 @@ def check_sampled(case, ctx: Ctx):
             fh = h5py.File(path, "r")
             store = fh if case["store"] == "file" else fh[grp]
         clr = call("Cooler(store)", cooler.Cooler, store)
+        if case.get("recreate_rows") is not None and case["store"] in ("path", "uri") and not case["oob"]:
+            # first use of the object on the old matrix ...
+            before = call("matrix()[:] before re-creation", lambda: clr.matrix(balance=False, field=field, chunksize=case["chunksize"])[:])
+            check(np.array_equal(before, F), "full matrix before re-creation differs")
+            _ = clr.matrix(balance=False, sparse=True)[0:n, 0:n]
+            # ... then the collection is re-created at the same URI (append mode keeps the rest of the file)
+            rows = case["recreate_rows"]
+            call("re-create at the same URI", create_from_model, uri, bt, rows, symmetric, cols=("count", "x"),
+                 h5opts={"compression": None}, mode="a")
+            F = model.dense(rows, n, symmetric, col, dtype=float)
         out = case["out"]
         sel = clr.matrix(field=field, balance=False, sparse=(out == "sparse"),
                          as_pixels=out.startswith("pixels"), join=(out == "pixels-join"),
@@ -375,6 +388,7 @@ def check_sampled(case, ctx: Ctx):
     spell = "+".join(sorted({("scalar" if "scalar" in k else "neg" if any(isinstance(v, int) and v < 0 for v in k["slice"])
                               else "open" if None in k["slice"] else "plain") for k in case["key"] if k}))
     ctx.record(case, nt, ["sampled", "out=" + case["out"], "store=" + case["store"], "spell=" + spell,
+                          "recreated" if case.get("recreate_rows") is not None and case["store"] in ("path", "uri") else "single-shot",
                           "win-" + _classify(i0, i1, j0, j1, n)])
 
 
